@@ -49,7 +49,7 @@ ASSUMPTIONS = [
 ]
 FAULT_KINDS = ["LenaStopFill-from-Slice-mid-flow", "accumulator-exception", "ill-typed-adapter-argument"]
 EXPECTED_PROBES = ["slice-stops-before-flow-end", "slice-stop-inside-split-block", "runif-selected",
-                   "filter-rejects", "split-multi-block", "watchdog-armed", "adapter-renamed-method",
+                   "filter-rejects", "split-multi-block", "sibling-stops-mid-flow", "watchdog-armed", "adapter-renamed-method",
                    "adapter-ill-typed"]
 
 ACCS = ["sum", "dsum", "mean", "mean-pass", "mean-sumseq", "vmc", "vectorize", "store",
@@ -94,7 +94,8 @@ def gen_scenario(tape):
             sc.pre.append(("slice", args))
         elif k == "runif":
             sc.pre.append(("runif", tape.draw(8, "pred"), tape.draw(3, "ninner"),
-                           tape.chance(1, 3, "runif-dup")))
+                           tape.weighted([(4, None), (2, "dup"), (1, "slice1"), (1, "trailer"),
+                                          (1, "count")], "runif-extra")))
         elif k == "call":
             sc.pre.append(("call", tape.draw(3, "fn")))
         else:
@@ -107,6 +108,8 @@ def gen_scenario(tape):
     sc.floaty = tape.chance(1, 3, "floats")
     sc.bufsize = tape.choice([1000, None, 1, 2, 3, sc.n + 1, max(sc.n, 1)], "bufsize")
     sc.nsib_before = tape.draw(2, "sib-before")
+    # a sibling fill/compute branch that signals LenaStopFill after k values
+    sc.stopper = tape.draw(5, "stopper-k") if tape.chance(1, 4, "stopper-sibling") else None
     sc.nsib_after = tape.draw(2, "sib-after")
     sc.explicit_fcs = bool(tape.draw(2, "explicit-fcseq"))
     sc.copy_buf = not tape.chance(1, 6, "copy-buf-off")
@@ -150,6 +153,17 @@ PREDS = [
     lambda v: first(v),
     lambda v: [first(v)] if first(v) > 0 else [],
 ]
+
+
+class Trailer(object):
+    """Run element yielding a closing value after its flow ends."""
+
+    def run(self, flow):
+        n = 0
+        for v in flow:
+            n += 1
+            yield v
+        yield mapd(v, lambda x: x * 0 + n) if n else 0
 
 
 class Dup(object):
@@ -238,8 +252,15 @@ def make_chain(sc, fills):
             els.append(lena.flow.Slice(*st[1]))
         else:
             inner = [(lambda v, f=FNS[i % 3]: mapd(v, f)) for i in range(st[2])]
-            if st[3]:
+            if st[3] == "dup":
                 inner.append(Dup())
+            elif st[3] == "slice1":
+                # depends on where the inner flow ends: one value per run
+                inner.append(lena.flow.Slice(1))
+            elif st[3] == "trailer":
+                inner.append(Trailer())
+            elif st[3] == "count":
+                inner.append(lena.flow.Count("inner_count"))
             els.append(lena.flow.RunIf(PREDS[st[1]], *inner))
     els.append(make_acc(sc, fills))
     for j, p in enumerate(sc.post):
@@ -348,6 +369,8 @@ def blocked(sc):
         slog = Log()
         for j in range(sc.nsib_before):
             branches.append((lambda v: v, ProbeFC(slog, "sibA%d" % j)))
+        if sc.stopper is not None:
+            branches.append((lena.flow.Slice(sc.stopper), ProbeFC(slog, "sibS")))
         branches.append(lena.core.FillComputeSeq(*chain) if sc.explicit_fcs else tuple(chain))
         for j in range(sc.nsib_after):
             branches.append(lena.core.Sequence(lambda v, j=j: ("sibB%d" % j, v)))
@@ -368,8 +391,8 @@ def run(tape):
         adapter_case(sc, res)
         return res
     res.say("chain: pre=%s acc=%s post=%s" % (sc.pre, sc.acc, sc.post))
-    res.say("flow: %s%s; Split bufsize=%s siblings before/after=%d/%d explicit FillComputeSeq=%s "
-            "copy_buf=%s" % (make_flow(sc), "", sc.bufsize, sc.nsib_before, sc.nsib_after,
+    res.say("flow: %s%s; Split bufsize=%s siblings before/after=%d/%d (+ a sibling stopping after %s values) explicit FillComputeSeq=%s "
+            "copy_buf=%s" % (make_flow(sc), "", sc.bufsize, sc.nsib_before, sc.nsib_after, sc.stopper,
                              sc.explicit_fcs, sc.copy_buf))
     res.log.ev("chain", "+".join(st[0] for st in sc.pre) or "-", sc.acc, "+".join(sc.post) or "-",
                "n%d" % sc.n, "buf%s" % sc.bufsize)
@@ -395,6 +418,8 @@ def run(tape):
             res.probe("filter-rejects")
     if sc.bufsize is not None and sc.n > sc.bufsize:
         res.probe("split-multi-block")
+        if sc.stopper is not None and sc.stopper < sc.n:
+            res.probe("sibling-stops-mid-flow")
     if base.exc:
         res.fault("accumulator-exception")
     for r in regimes:
